@@ -523,7 +523,11 @@ func (e *daemonEngine) reshare(id string, p *ResharePlan) {
 	}
 	// C07: identity of the chain is unchanged
 	if !ep.master.Equal(old.master) {
-		e.rec.Violate("C07", "reshare-changed-the-secret", "secret", "epoch %d: the interpolated group secret differs from the previous epoch's", ep.n)
+		facts := "secret"
+		if ep.membersDiffer {
+			facts = "secret-after-members-diverged" // shares of diverged groups were interpolated together (C06 finding)
+		}
+		e.rec.Violate("C07", "reshare-changed-the-secret", facts, "epoch %d: the interpolated group secret differs from the previous epoch's", ep.n)
 	}
 	if ep.group.GenesisTime != old.group.GenesisTime || !bytes.Equal(ep.group.GenesisSeed, old.group.GenesisSeed) || ep.group.Period != old.group.Period ||
 		ep.group.Scheme.Name != old.group.Scheme.Name || ep.group.ID != old.group.ID || !ep.group.PublicKey.Key().Equal(old.group.PublicKey.Key()) {
